@@ -412,7 +412,7 @@ def _append_step(k1, k2, u1, u2, slack, fs, dated, ts):
 def copy_step(u1: int, u2: int, u3: int, e1: int, e2: int, form: int, uidcmd: bool, same: bool, dslack: int, x1: bool, x2: bool, x3: bool) -> bool:
     """
     pre: [u1, u2, u3] == [3, 2, 3] and 0 <= e1 <= core.PARAMS["emax"] and 0 <= e2 <= core.PARAMS["emax"] and form == core.PARAMS["form"] and uidcmd == core.PARAMS["uidcmd"] and same == core.PARAMS["same"] and 0 <= dslack <= 1
-    pre: (not x2) and (not x3) and (form in (1, 2) or e2 == 0)
+    pre: (not x2) and (not x3) and (form in (1, 2) or e2 == 0) and (form == 0 or (dslack == 0 and not x1))
     post: _
     """
     return held(_copy_step, locals())
@@ -444,7 +444,9 @@ def _copy_step(u1, u2, u3, e1, e2, form, uidcmd, same, dslack, x1, x2, x3):
     dst.mgmt_task = loop.create_task(dst.management_task())
     if not same:
         src.mgmt_task = loop.create_task(src.management_task())
-    e1 = env.realize(e1) if form >= 2 else e1
+    if form >= 2:
+        emax = core.PARAMS["emax"]
+        e1, e2 = core.pick(e1, 0, emax + 1), core.pick(e2, 0, emax + 1)
     mset = [[e1], [e1, e2], [(e1, e2)], [(e1, "*")]][form]
     ref = RS.denote(mset, uids if uidcmd else list(range(1, n + 1)), uid=uidcmd)
     if ref is None:
